@@ -291,7 +291,12 @@ def streams_for(pid, r, tier):
         return build_stream(r, tier, ("bye", "app")) + of_kinds(build_stream(r, "quick", ("pb",)), ("bye", "app"))
     if pid == "C05":
         return build_stream(r, tier, ("fb",)) + of_kinds(build_stream(r, "quick", ("pb",)), ("tfb", "pfb"))
-    if pid in ("C06", "C07", "C16", "C17"):
+    if pid == "C17":
+        # the two writer helpers the builders are made of are part of what C17 is about: what they
+        # write at the position they are given, and that they touch nothing else
+        return ([x for x in streams.helper_stream(r, tier) if x[1]["name"] in ("write_padding", "write_header")]
+                + build_stream(r, tier, big=(tier == "thorough")))
+    if pid in ("C06", "C07", "C16"):
         return build_stream(r, tier, big=(pid == "C16" or tier == "thorough"))
     if pid == "C08":
         return streams.length_patterns(r) + report_ext(r, tier) + parse_typed(r, tier) + parse_custom(r, tier, 0.15) + pad_stream(r, "quick") + big_light(r)
@@ -393,6 +398,8 @@ def project(pid, t, meta):
     if pid in ("C07", "C14", "C19", "C20", "C17"):
         if op != "build":
             if pid == "C19" and op in ("parse", "pad", "helper"):
+                return dict(t)
+            if pid == "C17" and op == "helper":
                 return dict(t)
             if pid == "C14" and op == "parse":
                 return {k: v for k, v in t.items() if k in ("res", "variant", "version", "type", "count", "length", "padding")}
